@@ -175,6 +175,7 @@ def check(ctx, report):
     if ia is not None and not any(isinstance(n, ast.Call) and isinstance(n.func, ast.Attribute) and n.func.attr == 'extend' for n in ast.walk(ia.node)):
         report.add('C12.R6', ia.construct + '@atomic', '__iadd__ does not go through the atomic extend')
     item_size_agreement(ctx, report, ab)
+    protocol_bounds(ctx, report)
     # R2
     u = ab.methods.get('_update_items_size')
     if u is None:
@@ -358,3 +359,23 @@ def item_size_agreement(ctx, report, ab, RULE='C12.R7', title='the size counted 
                    'the vector parameter counts %s per item (%s) but the composer %s emits %s: the checked size is not the encoded size' % (
                        sf, gis.construct, comp.construct, ef))
     report.floor(RULE, 30, 'vector classes')
+
+
+def protocol_bounds(ctx, report):
+    """R8: minimum, maximum and prefix width of every vector the specification tables describe are the protocol's"""
+    from ..spec import load_spec
+    from ..speccheck import vector_bounds
+    report.rule('C12.R8', 'vector bounds (floor, ceiling, prefix width, item width) equal the bounds of the specification')
+    for spec_file in ('tls.json', 'ssh.json', 'dns.json', 'opp.json'):
+        table = load_spec(spec_file)['structures']
+        for name, entry in table.items():
+            if 'vector' not in entry:
+                continue
+            c = ctx.model.try_cls(name)
+            if c is None:
+                report.error('C12.R8: specified vector %s vanished' % name)
+                continue
+            if c.abstract_methods:
+                continue
+            vector_bounds(ctx, report, 'C12.R8', c, entry)
+    report.floor('C12.R8', 20, 'specified vectors')
